@@ -193,6 +193,11 @@ class Runner:
         VSTYLE[0] = hist.get("validator_returns", "bool")
         self.dir = os.path.join(root, "cache")
         os.makedirs(self.dir)
+        # the path handed to the library: absolute, or relative to the working directory (data/cache)
+        self.cpath = self.dir
+        if hist.get("relative_cache_path"):
+            os.chdir(root)
+            self.cpath = "cache"
         self.L = 1
         self.cache = None
         self.log_pos = 0
@@ -205,7 +210,7 @@ class Runner:
             # the module-level API of filecache.py: named caches, one path per cache
             name = "verif_cache_%d" % id(self)
             fcmod._ACTIVE_FILE_CACHES.pop(name, None)
-            fcmod.create_cache(name, self.dir, cache_size_GB=sz, do_cache_eviction_on_startup=do_evict,
+            fcmod.create_cache(name, self.cpath, cache_size_GB=sz, do_cache_eviction_on_startup=do_evict,
                                download_in_parallel=self.h["par"] if first else (not self.h["par"]),
                                resources=[TestResource()])
             self.modname = name
@@ -225,7 +230,7 @@ class Runner:
             if not fcmod.exists(name) or fcmod.exists(name + "_twin"):
                 self.module_facts.append("exists() wrong")
             return
-        c = FileCache(self.dir, size_GB=sz, do_cache_eviction_on_startup=do_evict,
+        c = FileCache(self.cpath, size_GB=sz, do_cache_eviction_on_startup=do_evict,
                       resources=[TestResource()],
                       parallel=self.h["par"] if first else (not self.h["par"]),
                       allow_for_missing_files=self.h["allow"] if first else (not self.h["allow"]))
@@ -283,7 +288,8 @@ class Runner:
         def key(x):
             downloaded, c, t, p = x
             base = c.replace("T.", "C.")
-            idx = req_names.index(base) if base in req_names else 10 ** 6
+            # a URI named twice is touched / written again: its last position in the request counts
+            idx = (len(req_names) - 1 - req_names[::-1].index(base)) if base in req_names else 10 ** 6
             return (1 if downloaded else 0, idx, t)
         for downloaded, c, t, p in sorted(new, key=key):
             stamp = BASE_NS + self.L * 10 ** 9
@@ -327,7 +333,7 @@ class Runner:
             r, k = q["r"], q["k"]
             c = "C.%d.%d" % (r, k)
             names.append(c)
-            PLAN.idx.setdefault(c, idx)
+            PLAN.idx[c] = idx          # a repeated URI is downloaded again: the last write stamps the file
             kind = q["out"][0]
             v = q["out"][1] if len(q["out"]) > 1 else 0
             if r not in PLAN.out:
@@ -500,6 +506,7 @@ def main():
             except Exception as e:  # noqa
                 import traceback
                 results.append({"error": type(e).__name__, "msg": str(e)[:300], "tb": traceback.format_exc()[-1500:]})
+            os.chdir(root0)
             shutil.rmtree(root, ignore_errors=True)
     finally:
         shutil.rmtree(root0, ignore_errors=True)
